@@ -1,4 +1,6 @@
 
+type __ = Obj.t
+
 val negb : bool -> bool
 
 type nat =
@@ -36,6 +38,10 @@ val rev : 'a1 list -> 'a1 list
 val rev_append : 'a1 list -> 'a1 list -> 'a1 list
 
 val concat : 'a1 list list -> 'a1 list
+
+val flat_map : ('a1 -> 'a2 list) -> 'a1 list -> 'a2 list
+
+val fold_left : ('a1 -> 'a2 -> 'a1) -> 'a2 list -> 'a1 -> 'a1
 
 val firstn : nat -> 'a1 list -> 'a1 list
 
@@ -92,6 +98,8 @@ module Coq_Pos :
 
   val iter : ('a1 -> 'a1) -> 'a1 -> positive -> 'a1
 
+  val pow : positive -> positive -> positive
+
   val compare_cont : comparison -> positive -> positive -> comparison
 
   val compare : positive -> positive -> comparison
@@ -136,6 +144,8 @@ module N :
   val min : n -> n -> n
 
   val div2 : n -> n
+
+  val pow : n -> n -> n
 
   val pos_div_eucl : positive -> n -> n * n
 
@@ -435,3 +445,124 @@ val run_phys : n -> 'a1 prog -> phys -> ('a1, err) sum * phys
 val logical : phys -> n list
 
 val phys_init : n list -> phys
+
+type presence =
+| Mand
+| MandNE
+| Always
+| Opt
+| NonEmpty
+
+type ty =
+| TU of n
+| TI
+| TBool
+| TText
+| TBytes
+| TTime
+| TArr of ty
+| TIdx
+| TMap of bool * fields
+and fields =
+| FNil
+| FCons of z * presence * ty * fields
+
+type val0 =
+| VN of n
+| VZ of z
+| VB of bool
+| VS of n list
+| VL of val0 list
+| VR of val0 option list
+
+val op_uint : n -> n -> eop
+
+val op_key : bool -> z -> eop
+
+val present : presence -> val0 option -> bool
+
+val count_present : fields -> val0 option list -> n
+
+val write_val : ty -> val0 -> eop list
+
+val write_fields : bool -> fields -> val0 option list -> eop list
+
+type has_ty = __
+
+val read_time : val0 prog
+
+val arr_loop : val0 prog -> nat -> n -> bool -> val0 list -> val0 list prog
+
+val read_arr : val0 prog -> nat -> val0 prog
+
+val read_idx : nat -> val0 prog
+
+val set_nth : nat -> 'a1 -> 'a1 list -> 'a1 list
+
+val init_rec : fields -> val0 option list
+
+val mand_ok : fields -> val0 option list -> bool
+
+val zero_of : ty -> val0
+
+val fill_always : fields -> val0 option list -> val0 option list
+
+val map_loop :
+  (z -> (nat * val0 prog) option) -> unit prog -> nat -> n -> bool -> val0
+  option list -> val0 option list prog
+
+val read_val : nat -> ty -> val0 prog
+
+val find_field : nat -> fields -> nat -> z -> (nat * val0 prog) option
+
+val u8 : ty
+
+val u16 : ty
+
+val u32 : ty
+
+val u64 : ty
+
+val mk_fields : ((z * presence) * ty) list -> fields
+
+val s_ : ((z * presence) * ty) list -> ty
+
+val storageHints : ty
+
+val storageParameters : ty
+
+val collectionParameters : ty
+
+val blockParameters : ty
+
+val filePreamble : ty
+
+val classType : ty
+
+val queryResponseSignature : ty
+
+val question : ty
+
+val rR : ty
+
+val malformedMessageData : ty
+
+val responseProcessingData : ty
+
+val queryResponseExtended : ty
+
+val blockPreamble : ty
+
+val blockStatistics : ty
+
+val queryResponse : ty
+
+val addressEventCount : ty
+
+val malformedMessage : ty
+
+val blockTables : ty
+
+val block : ty
+
+val write_struct : ty -> val0 -> n list * n
